@@ -27,5 +27,45 @@ def declare(reg):
         ghost={"harness": "harness.fetchdata:BodyFraming"},
     )
 
+    # ---- C07 (c, e): every header value leaves encode_header as a well-formed quoted string of the unwrapped encoding ----
+    T = dict(trusted=True)
+    WF = r'''matches(result, r'"([^"\\\r\n]|\\[\\"])*"')'''
+    reg.classes.get("Header") or reg.classdef("Header", {"src": "str"})
+    reg.specfn("decodes_to", "x: str, src: str", "bool", doc="A-EMAIL: x, with CR and LF removed, is RFC 2047 encoded-word text that decodes to src")
+    reg.specfn("fquoted", "s: str", "str", doc="fetch.quote_string: the IMAP quoted form (bounded tier: exhaustive over a 7-letter alphabet)")
+    reg.specfn("py_latin1_replace", "s: str", "str", doc="str.encode('latin-1', errors='replace'): same z3 symbol the engine uses for that call")
+    reg.contract("<email>", "email.header.Header", params={"s": "str"}, ret="ref:Header", ensures={"src": "result.src == s"}, **T, note="A-EMAIL")
+    reg.contract("<email>", "Header.encode", params={"self": "ref:Header", "maxlinelen": "int"}, ret="str",
+                 ensures={"decodes": "decodes_to(result, self.src)"}, raises={"UnicodeEncodeError": None}, **T,
+                 note="A-EMAIL: whatever the line length, the encoded words decode to the source once the folding CR/LF are removed (white space between encoded words is not part of the text)")
+    reg.contract(F, "quote_string", params={"value": "str"}, ret="str",
+                 ensures={"is": "result == fquoted(value)", "well-formed": WF}, **T,
+                 note="bounded tier (harness.fetchdata:QuoteString): a chain of four replace_all calls, which neither z3 nor cvc5 decides against the quoted-string grammar")
+    reg.contract(
+        F, "encode_header", params={"hdr": "str"}, ret="str",
+        ensures={
+            # (c) quoted strings contain no raw CR, LF, unescaped double quote or backslash
+            "well-formed-quoted": WF,
+            # (e) the string is the quoted form of the latin-1 text, or of its unwrapped RFC 2047 encoding
+            "latin1-verbatim": "implies(matches(hdr, r'[\\x00-\\xff]*'), result == fquoted(hdr))",
+            "faithful": "result == fquoted(hdr) or result == fquoted(py_latin1_replace(hdr)) or exists(lambda x: decodes_to(x, hdr) and result == fquoted(x), 'str')",
+        },
+        raises={},
+        props=["C07"],
+        ghost={"harness": "harness.fetchdata:EnvelopeStrings"},
+    )
+    reg.contract(
+        F, "header_or_nil", params={"msg": "opaque:EmailMessage", "field": "str"}, ret="str",
+        ensures={"nil-or-quoted": "ite(has_hdr(msg, field), result == fquoted(hdr(msg, field)) or result == fquoted(py_latin1_replace(hdr(msg, field))) or exists(lambda x: decodes_to(x, hdr(msg, field)) and result == fquoted(x), 'str'), result == 'NIL')",
+                 "well-formed": "result == 'NIL' or " + WF},
+        raises={},
+        props=["C07"],
+        ghost={"harness": "harness.fetchdata:EnvelopeStrings"},
+    )
+
     reg.properties.setdefault("C16", {}).setdefault("bounded", []).append(
         {"name": "fetch-data-consistency-corpus", "module": "harness.fetchdata", "func": "BodyFraming"})
+
+    b7 = reg.properties.setdefault("C07", {}).setdefault("bounded", [])
+    b7.append({"name": "quote-string-exhaustive", "module": "harness.fetchdata", "func": "QuoteString"})
+    b7.append({"name": "envelope-strings-round-trip", "module": "harness.fetchdata", "func": "EnvelopeStrings"})
